@@ -191,6 +191,25 @@ let () =
               let infos = recover_block b i (rd [] stale) in
               Printf.sprintf "infos=%s" (String.concat "/" (List.map (fun x ->
                   Printf.sprintf "%s.%s.%s.%s" (dec_of_n x.n_hash) (dec_of_n x.n_seq) (dec_of_n x.n_off) (dec_of_n x.n_len)) infos))
+          | "bidx" ->
+              (* the implementation's line carries the two checksums (XXH64 is external code) *)
+              let all = kvs (split_on ' ' line) in
+              let ck = n_of_dec (gets all "ck") and ck2 = n_of_dec (gets all "ck2") in
+              let size = geti kv "I" in
+              let fill = n_of_int (int_of_string (gets_d kv "fill" "0")) in
+              let ents = List.map (fun e -> match split_on '.' e with
+                  | [h; s; o; l] -> { be_hash = n_of_dec h; be_seq = n_of_dec s; be_off = n_of_dec o; be_len = n_of_dec l }
+                  | _ -> failwith "bent") (List.filter (fun x -> x <> "") (split_on '/' (gets_d kv "ents" ""))) in
+              let rest = List.init (size - 12 - 24 * List.length ents) (fun _ -> fill) in
+              let page = bidx_page (fun _ -> ck) ents rest in
+              let show = function
+                | BOk v -> "ok:" ^ String.concat "/" (List.map (fun i ->
+                    Printf.sprintf "%s.%s.%s.%s" (dec_of_n i.be_hash) (dec_of_n i.be_seq) (dec_of_n i.be_off) (dec_of_n i.be_len)) v)
+                | BReject -> "reject" | BPanic -> "panic" in
+              let (pos, x) = match split_on ':' (gets kv "flip") with [a; b] -> (int_of_string a, int_of_string b) | _ -> failwith "flip" in
+              let dmg = List.mapi (fun j b -> if j = pos then n_of_int ((int_of_n b) lxor x) else b) page in
+              Printf.sprintf "ck=%s ck2=%s page=%s read=%s dmg=%s" (dec_of_n ck) (dec_of_n ck2) (hex page)
+                (show (bidx_read (fun _ -> ck) page)) (show (bidx_read (fun _ -> ck2) dmg))
           | "tombnew" ->
               tomb_pages := geti kv "pages"; tomb_next := 1;
               tomb_bug := (gets_d kv "bug_tail" "0" = "1");
